@@ -3,8 +3,8 @@
 What is decided, and by what (all on the real halmos code of VERIF_REPO_SRC):
 
 1. Run-time monitor + solver (lib/c16_mon.py, lib/c16_run.py).  Generated test contracts (lib/c16_gen.py: decision
-   trees over calldata with conflicting condition groups, twin subtrees, long order cycles, storage- and call-dependent
-   tails; several test functions per contract, MANY Panic(1) leaves per function, infeasible for DIFFERENT reasons)
+   trees over calldata with conflicting condition groups, twin subtrees, long order cycles, value-bearing calls (a
+   non-branching balance constraint on one sibling only), switch/vm.assume cases (conditions owned by one path); several test functions per contract, MANY Panic(1) leaves per function, infeasible for DIFFERENT reasons)
    run through the real `run_contract` with `cache_solver=True`.  The branch-feasibility check of path exploration is
    allowed to time out (`unsat` -> `unknown`, an environment behaviour halmos documents), so infeasible prefixes reach
    the assertion solver.  `check_unsat_cores`, the reply callback and `run_test` are wrapped in the harness process.
@@ -61,7 +61,7 @@ def wanted(run, group: str) -> bool:
 # ---------------------------------------------------------------------------------------------------------------
 # plan
 # ---------------------------------------------------------------------------------------------------------------
-def plan(tier: str, seed: int) -> list:
+def plan(tier: str, seed: int, nproc: int = 5) -> list:
     """items are dealt round-robin to the worker processes and the deadline cuts the tail, so the list is ordered by
     value: every family / solver / reply script appears early"""
     b = seed * 1000
@@ -69,7 +69,7 @@ def plan(tier: str, seed: int) -> list:
     stub_scripts = [
         (M, F),  # every valid choice, cycling
         (["empty", "real", "empty", "full"], ["err", "noerr"]),  # `()` first, then real cores
-        (["foreign", "superset", "real"], ["multiline", "wrap"]),
+        (["real", "foreign", "superset"], ["multiline", "wrap"]),
         (["none", "garbage", "real", "minimal"], ["spaces", "err"]),
         (["minimal"], ["wrap"]),
         (["full", "reversed", "dup"], ["multiline"]),
@@ -88,21 +88,27 @@ def plan(tier: str, seed: int) -> list:
         add(fam or ("tree" if q % 3 else "twin"), 400 + 10 * q + s, solver=f"stub{q}", modes=modes, formats=fmts)
 
     rounds = 1 if tier == "quick" else 7
+    # every worker process starts with a switch/vm.assume contract: many conditions owned by one path and many 1-id
+    # cores -- the most sensitive probe for id recycling inside a test and for cores surviving into later tests
+    for w in range(nproc):
+        add("assume", 900 + w, kw={"cases": 12 + 4 * (w % 3), "extra": 3 + (w % 4)})
     for r in range(rounds):
         o = 10 * r
         add("tree", o + 0)
+        add("assume", o + 0, kw={"cases": 20, "extra": 6})
         add("tree", o + 1)
         add("twin", o + 0)
+        add("valuecall", o)
         add("chain", o + 0, kw={"n": 24})
         stub(0, r)
         add("tree", o + 2)
         add("mixed", o + 0)
         stub(1, r)
         add("chain", o + 1, kw={"n": 30})
-        add("storage", o)
+        add("valuecall", 50 + o)
         stub(2, r)
         add("tree", o + 3)
-        add("valuecall", o)
+        add("assume", o + 1, kw={"cases": 16, "extra": 6})
         add("tree", 100 + o, threads=4)
         stub(3, r)
         add("tree", 200 + o, policy="half")
@@ -116,6 +122,8 @@ def plan(tier: str, seed: int) -> list:
         add("tree", o + 5)
         add("twin", 100 + o, threads=4)
         if tier == "thorough":
+            add("assume", o + 2, kw={"cases": 24, "extra": 8})
+            add("assume", o + 3, threads=4)
             stub(6, r)
             stub(7, r)
             add("tree", 300 + o, solver="z3")
@@ -209,6 +217,10 @@ def parse_grid(run, tmp, tier):
                 got = hs.parse_unsat_core(out)
                 if got == [str(i) for i in ids]:
                     run.ok("parse-layout", f"n={n}/style={style}/err={err}", nontrivial=n > 0)
+                    stats["layouts_parsed"] = stats.get("layouts_parsed", 0) + 1
+                elif got is None:
+                    # not parsed = nothing is cached for this reply: no soundness issue (C16 is not about cache efficacy)
+                    run.ok("parse-layout", f"n={n}/style={style}/err={err}/not-parsed(no caching)", nontrivial=False)
                 else:
                     run.violation("parse-faithful", f"parse-faithful/layout/style={style}",
                                   f"layout style {style} err {err}: parsed {got}", {"kind": "parse", "raw": out,
@@ -221,6 +233,8 @@ def parse_grid(run, tmp, tier):
         else:
             run.violation("parse-faithful", "parse-faithful/degenerate", f"{raw!r} parsed as {got}",
                           {"kind": "parse", "raw": raw, "halmos": got, "solver_listed": None})
+    if not stats.get("layouts_parsed"):
+        run.inconc("parse-layout", "all", "no layout of the grid is parsed at all (cache never fed): grid vacuous")
     run.extra["parse_grid"] = stats
 
 
@@ -372,8 +386,8 @@ def main(run):
         pool = tw = res_async = None
         if wanted(run, "monitor"):
             # fork the workers BEFORE any thread exists in this process
-            items = plan(tier, run.seed)
             nproc = min(run.args.jobs, 5 if tier == "quick" else 8)
+            items = plan(tier, run.seed, nproc)
             budget = 140 if tier == "quick" else 1500
             deadline = t0 + budget
             jobs = [dict(wid=w, items=items[w::nproc], deadline=deadline, tmp=tmp, tier=tier, seed=run.seed,
@@ -451,7 +465,7 @@ def main(run):
     run.bounds = {
         "programs": "generated test contracts of families tree (conflict groups: range, successor, order cycle, parity, "
                     "linear sum, signed/unsigned, shift), twin, chain (order cycles of 6..30 conditions over distinct "
-                    "calldata words), storage, valuecall, mixed; 1-3 test functions per contract, <= ~16 Panic leaves "
+                    "calldata words), valuecall, assume (vm.assume conditions owned by one path, 1-id cores), mixed; 1-3 test functions per contract, <= ~16 Panic leaves "
                     "per function; seeds listed by VERIF_SEED",
         "histories": "the path/query sequences of the contracts actually run (see monitor.contracts_done), cache on and "
                      "off in alternating order, several contracts per process; solver threads 1 (deterministic reply "
